@@ -64,9 +64,9 @@ def _work(args):
 def run(run, replay=None):
     rng = random.Random(run.seed)
     quick = run.tier == 'quick'
-    run.mc('ReadUntil', 'SPECIFICATION Spec\nCONSTANTS MaxLen = %d MaxChunk = %d\nINVARIANT NoLossNoDup\n'
-                        'CHECK_DEADLOCK FALSE\n' % ((7, 9) if quick else (10, 12)),
-           note='chunked read-ahead: all streams x block sizes x start positions')
+    run.mc('ReadUntil', 'SPECIFICATION FairSpec\nCONSTANTS MaxLen = %d MaxChunk = %d\nINVARIANT NoLossNoDup\n'
+                        'PROPERTY Terminates\nCHECK_DEADLOCK FALSE\n' % ((7, 9) if quick else (10, 12)),
+           note='chunked read-ahead: all streams x block sizes x start positions; terminates under weak fairness')
     cat = Catalog()
     _rcommon.note_pools(cat)
     files = []
